@@ -246,11 +246,10 @@ fn c01_reader_heartbeat_acknack() {
     core::mem::forget(wp);
 }
 
-/// Reader request step with ONE buffered fragment (fragment 1 of a 2-fragment sample `sn_f`):
-/// `mode` 0 = the trigger of KF-C01-1 (sn_f is stale: no longer missing), asserts the full missing set;
-/// 1 = everything else (sn_f is missing or beyond last), asserts set, NACK_FRAG presence and content
-///     except its count; 2 = the trigger of KF-C05-1 (a NACK_FRAG is emitted), asserts its count.
-fn acknack_with_fragment(mode: u8) -> (u32, bool, bool) {
+/// Reader request step with ONE buffered fragment (fragment 1 of a 2-fragment sample `sn_f`).
+/// `stale_only` restricts to the scenario of the repaired defect (fix 1d5179c): sn_f stopped being
+/// missing (GAP / HEARTBEAT.firstSN moved past it) while changes are missing.
+fn acknack_with_fragment(stale_only: bool) -> (u32, bool, bool) {
     let mut wp = s::new_proxy(ReliabilityKind::Reliable);
     let first0: i64 = kani::any();
     let highest: i64 = kani::any();
@@ -280,10 +279,8 @@ fn acknack_with_fragment(mode: u8) -> (u32, bool, bool) {
     let n_missing: u32 = (last - first_missing + 1) as u32;
     let stale = sn_f < first_missing;
     let partial = sn_f >= first_missing && sn_f <= last;
-    match mode {
-        0 => kani::assume(stale && n_missing >= 1),
-        1 => kani::assume(!stale),
-        _ => kani::assume(partial),
+    if stale_only {
+        kani::assume(stale && n_missing >= 1);
     }
     let hb = HeartbeatSubmessage::new(false, false, s::R_ID, s::W_ID, first, last, count);
     kani::assume(count > 0);
@@ -295,61 +292,54 @@ fn acknack_with_fragment(mode: u8) -> (u32, bool, bool) {
     let a = s::staged_sub(0, 1);
     assert!(a.id() == ACKNACK, "C01: second submessage is ACKNACK");
     assert!(a.sn(AN_BASE) == first_missing, "C01: ACKNACK base = available_changes_max + 1");
-    if mode == 0 {
-        // KF-C01-1: the stale fragment must not hide the missing changes from the writer
-        assert!(a.u32(AN_NUMBITS) == n_missing && a.u32(AN_BITMAP) == top_bits(n_missing),
-            "C01: ACKNACK names every missing sequence number although a stale fragment is buffered");
+    // missing changes strictly below a partially received sample are requested by ACKNACK, the
+    // partially received sample itself by NACK_FRAG; a fragment of a sample that is no longer
+    // missing (stale) must not hide anything
+    let below: u32 = if partial { (sn_f - first_missing) as u32 } else { n_missing };
+    assert!(a.u32(AN_NUMBITS) == below, "C01: ACKNACK names every missing sequence number below a partially received sample (all of them if there is none)");
+    if below > 0 {
+        assert!(a.u32(AN_BITMAP) == top_bits(below), "C01: ACKNACK bitmap");
+    }
+    if partial {
+        assert!(nsub == 3, "C05: a partially received missing sample is requested with a NACK_FRAG");
+        let f = s::staged_sub(0, 2);
+        assert!(f.id() == NACK_FRAG, "C05: third submessage is NACK_FRAG");
+        assert!(f.sn(NF_SN) == sn_f, "C05: NACK_FRAG names the partially received sample");
+        assert!(f.u32(NF_BASE) == 2 && f.u32(NF_NUMBITS) == 1 && f.u32(NF_BITMAP) == 0x8000_0000,
+            "C05: NACK_FRAG names exactly the missing fragment numbers, 1-based (here: fragment 2 of 2)");
+        // the writer accepts a NACK_FRAG only if count > last received count (initially 0)
+        assert!(f.u32(NF_BITMAP + 4) as i32 > 0, "C05: the first NACK_FRAG of a reader carries a count greater than 0");
     } else {
-        // missing changes strictly below the partially received sample are requested by ACKNACK,
-        // the partially received sample itself by NACK_FRAG
-        let below: u32 = if partial { (sn_f - first_missing) as u32 } else { n_missing };
-        assert!(a.u32(AN_NUMBITS) == below, "C01: ACKNACK names the missing sequence numbers below the partially received sample");
-        if below > 0 {
-            assert!(a.u32(AN_BITMAP) == top_bits(below), "C01: ACKNACK bitmap");
-        }
-        if partial {
-            assert!(nsub == 3, "C05: a partially received missing sample is requested with a NACK_FRAG");
-            let f = s::staged_sub(0, 2);
-            assert!(f.id() == NACK_FRAG, "C05: third submessage is NACK_FRAG");
-            assert!(f.sn(NF_SN) == sn_f, "C05: NACK_FRAG names the partially received sample");
-            assert!(f.u32(NF_BASE) == 2 && f.u32(NF_NUMBITS) == 1 && f.u32(NF_BITMAP) == 0x8000_0000,
-                "C05: NACK_FRAG names exactly the missing fragment numbers, 1-based (here: fragment 2 of 2)");
-            if mode == 2 {
-                // KF-C05-1: RTPS 8.3.7.10 - count is incremented for every new NACK_FRAG; the writer
-                // accepts a NACK_FRAG only if count > last received count (initially 0)
-                assert!(f.u32(NF_BITMAP + 4) as i32 > 0, "C05: the first NACK_FRAG of a reader carries a count greater than 0");
-            }
-        } else {
-            assert!(nsub == 2, "C05: no NACK_FRAG for a sample that is not (yet) announced");
-        }
+        assert!(nsub == 2, "C05: no NACK_FRAG for a sample that is not announced missing (not yet announced, lost or irrelevant)");
     }
     core::mem::forget(wp);
     core::mem::forget(c);
     (n_missing, gapped, partial)
 }
 
-// @check props=C01 tier=quick known=KF-C01-1
-// @desc Reader request step with a STALE buffered fragment (expected to FAIL, recorded finding KF-C01-1): the reader buffered fragment 1 of sample sn_f, then sn_f stopped being missing (HEARTBEAT.firstSN moved past it, e.g. the writer's lifespan expired the sample, or a GAP declared it irrelevant); frag_buffer is only purged when a DATA is accepted, so the fragment stays. The next ACKNACK must still name every missing sequence number; the real write_message cuts the set at the lowest buffered fragment sn (take_while x < min), which is below every missing number: the set is empty, the writer is told nothing is missing and the missing changes are never requested again.
+// @check props=C01 tier=quick
+// @desc Reader request step after a buffered fragment became stale (scenario of the defect repaired by fix 1d5179c): the reader buffered fragment 1 of sample sn_f, then sn_f stopped being missing - a GAP declared it irrelevant or HEARTBEAT.firstSN moved past it (e.g. lifespan expiry on the writer). The next ACKNACK names EVERY missing sequence number and carries no NACK_FRAG: the stale fragment does not hide the missing changes from the writer.
 // @bounds state symbolic with sequence numbers <= 1000, 1..=3 missing changes, one stale fragment; unwind 6
-// @assume trigger of KF-C01-1: a buffered fragment whose sequence number is below max(first_available, highest_received+1) while changes are missing
+// @assume pre-state restricted to: the buffered fragment's sequence number is below max(first_available, highest_received+1) after the GAP/HEARTBEAT, and changes are missing
 // @assume datagram container stubbed by support_rtps::from_submessages_staged; critical-section stubs
 // @enc rtps::writer_proxy::RtpsWriterProxy::write_message
-// @enc rtps::writer_proxy::RtpsWriterProxy::push_data_frag
+// @enc rtps::writer_proxy::RtpsWriterProxy::lost_changes_update
+// @enc rtps::writer_proxy::RtpsWriterProxy::irrelevant_change_set
 #[kani::proof]
 #[kani::unwind(6)]
 #[kani::stub(crate::rtps_messages::overall_structure::RtpsMessageWrite::from_submessages, super::support_rtps::from_submessages_staged)]
 #[kani::stub(critical_section::acquire, super::support_cs::cs_acquire)]
 #[kani::stub(critical_section::release, super::support_cs::cs_release)]
-fn c01_acknack_with_fragment__known() {
-    let (n_missing, gapped, _partial) = acknack_with_fragment(0);
-    kani::cover!(n_missing == 2 && gapped, "two changes missing, fragment of a GAPped sample buffered");
-    kani::cover!(n_missing == 1 && !gapped, "one change missing, fragment of a lost (firstSN moved) sample buffered");
+fn c01_acknack_after_stale_fragment() {
+    let (n_missing, gapped, _partial) = acknack_with_fragment(true);
+    kani::cover!(n_missing == 2 && gapped, "two changes missing, fragment of a GAPped sample was buffered");
+    kani::cover!(n_missing == 1 && !gapped, "one change missing, fragment of a lost (firstSN moved) sample was buffered");
 }
 
 // @check props=C01,C05 tier=quick
-// @desc Reader request step with a buffered fragment that is NOT stale (sibling of KF-C01-1 and KF-C05-1): fragment 1 of 2 of sample sn_f is buffered, a non-final HEARTBEAT arrives; the ACKNACK names exactly the missing sequence numbers below sn_f; if sn_f itself is announced missing the datagram carries a third submessage NACK_FRAG(writerSN = sn_f) whose fragment set is exactly the missing fragment numbers in RTPS 1-based numbering ({2}); if sn_f is beyond lastSN there is no NACK_FRAG. The NACK_FRAG count is the subject of c05_nackfrag_count__known.
-// @bounds state symbolic with sequence numbers <= 1000, 1..=3 missing changes, one buffered fragment of a 3-byte/2-fragment sample; unwind 6
-// @assume a fragment is only buffered for a sequence number that was expected when it arrived (on_data_frag_submessage)
+// @desc Reader request step with a buffered fragment, every case: fragment 1 of 2 of sample sn_f is buffered, optionally sn_f is then GAPped, a non-final HEARTBEAT arrives. The ACKNACK has base = available_changes_max+1 and names exactly the missing sequence numbers below a partially received sample (all missing ones if the fragment's sample is not missing any more); if sn_f is announced missing the datagram carries a third submessage NACK_FRAG(writerSN = sn_f) whose fragment set is exactly the missing fragment numbers in RTPS 1-based numbering ({2}) and whose count is greater than 0 (the writer accepts only count > last seen, initially 0); otherwise there is no NACK_FRAG.
+// @bounds state symbolic with sequence numbers <= 1000, 0..=3 missing changes, one buffered fragment of a 3-byte/2-fragment sample; unwind 6
+// @assume a reliable reader buffers a fragment only for the sequence number it expects when the fragment arrives (on_data_frag_submessage)
 // @assume datagram container stubbed by support_rtps::from_submessages_staged; critical-section stubs
 // @enc rtps::writer_proxy::RtpsWriterProxy::write_message
 // @enc rtps_messages::submessages::nack_frag::NackFragSubmessage::write_submessage_elements_into_bytes
@@ -358,16 +348,16 @@ fn c01_acknack_with_fragment__known() {
 #[kani::stub(crate::rtps_messages::overall_structure::RtpsMessageWrite::from_submessages, super::support_rtps::from_submessages_staged)]
 #[kani::stub(critical_section::acquire, super::support_cs::cs_acquire)]
 #[kani::stub(critical_section::release, super::support_cs::cs_release)]
-fn c01_acknack_with_fragment__rest() {
-    let (n_missing, _gapped, partial) = acknack_with_fragment(1);
+fn c01_acknack_with_fragment() {
+    let (n_missing, gapped, partial) = acknack_with_fragment(false);
     kani::cover!(partial && n_missing == 3, "partially received sample followed by two missing changes: NACK_FRAG emitted");
-    kani::cover!(!partial && n_missing == 0, "fragment of a not yet announced sample: no NACK_FRAG");
+    kani::cover!(!partial && n_missing == 0 && !gapped, "fragment of a not yet announced sample: no NACK_FRAG");
+    kani::cover!(!partial && gapped && n_missing == 2, "fragment's sample GAPped: full ACKNACK set, no NACK_FRAG");
 }
 
-// @check props=C05 tier=quick known=KF-C05-1
-// @desc NACK_FRAG duplicate filter (expected to FAIL, recorded finding KF-C05-1): the NACK_FRAG a reader emits for a partially received sample must carry a count greater than 0, because the writer (on_nack_frag_submessage_received) only accepts count > last_received_nack_frag_count, which starts at 0. RtpsWriterProxy never increments nack_frag_count: every NACK_FRAG carries 0 and is ignored by a dust-dds writer - a lost fragment of a reliable sample is never resent.
-// @bounds as c01_acknack_with_fragment__rest, restricted to the partially received sample being announced missing; unwind 6
-// @assume trigger of KF-C05-1: any NACK_FRAG emission (universal: the counter is never incremented); every other property of the emitted datagram is asserted by c01_acknack_with_fragment__rest
+// @check props=C05 tier=thorough
+// @desc NACK_FRAG duplicate filter over two rounds: a reader holding fragment 1 of 2 of the missing sample answers two successive fresh HEARTBEATs; both answers carry a NACK_FRAG for that sample and the second NACK_FRAG count is strictly greater than the first, which is greater than 0 - so a writer that saw the first accepts the second (on_nack_frag_submessage_received: count > last_received_nack_frag_count).
+// @bounds proxy state symbolic with sequence numbers <= 1000, the sample with the buffered fragment is the only missing one; unwind 6
 // @assume datagram container stubbed by support_rtps::from_submessages_staged; critical-section stubs
 // @enc rtps::writer_proxy::RtpsWriterProxy::write_message
 #[kani::proof]
@@ -375,7 +365,35 @@ fn c01_acknack_with_fragment__rest() {
 #[kani::stub(crate::rtps_messages::overall_structure::RtpsMessageWrite::from_submessages, super::support_rtps::from_submessages_staged)]
 #[kani::stub(critical_section::acquire, super::support_cs::cs_acquire)]
 #[kani::stub(critical_section::release, super::support_cs::cs_release)]
-fn c05_nackfrag_count__known() {
-    let (n_missing, _gapped, partial) = acknack_with_fragment(2);
-    kani::cover!(partial && n_missing >= 1, "NACK_FRAG emitted");
+fn c05_nackfrag_count_two_rounds() {
+    let mut wp = s::new_proxy(ReliabilityKind::Reliable);
+    let highest: i64 = kani::any();
+    kani::assume(highest >= 0 && highest <= 1000);
+    wp.irrelevant_change_set(highest);
+    let sn_f = highest + 1;
+    let fbytes: [u8; 3] = kani::any();
+    let c = s::change(sn_f, Arc::from(&fbytes[..]));
+    wp.push_data_frag(c.as_data_frag_submessage(s::R_ID, s::W_ID, 2, 0));
+    let c1: i32 = kani::any();
+    let c2: i32 = kani::any();
+    kani::assume(c1 > 0 && c2 > c1);
+    let out = s::Sent::new();
+    let hb1 = HeartbeatSubmessage::new(false, false, s::R_ID, s::W_ID, 1, sn_f, c1);
+    assert!(s::glue_heartbeat_proxy(&mut wp, &s::R_GUID, &hb1, &out), "C05: first HEARTBEAT accepted");
+    let hb2 = HeartbeatSubmessage::new(false, false, s::R_ID, s::W_ID, 1, sn_f, c2);
+    assert!(s::glue_heartbeat_proxy(&mut wp, &s::R_GUID, &hb2, &out), "C05: second HEARTBEAT accepted");
+    assert!(s::staged_count() == 2 && out.n.get() == 2, "C05: one answer per HEARTBEAT");
+    let (n0, _p0) = s::staged_meta(0);
+    let (n1, _p1) = s::staged_meta(1);
+    assert!(n0 == 3 && n1 == 3, "C05: both answers carry a NACK_FRAG");
+    let f0 = s::staged_sub(0, 2);
+    let f1 = s::staged_sub(1, 2);
+    assert!(f0.id() == NACK_FRAG && f1.id() == NACK_FRAG && f0.sn(NF_SN) == sn_f && f1.sn(NF_SN) == sn_f, "C05: NACK_FRAG for the partially received sample");
+    let k0 = f0.u32(NF_BITMAP + 4) as i32;
+    let k1 = f1.u32(NF_BITMAP + 4) as i32;
+    assert!(k0 > 0, "C05: first NACK_FRAG count is greater than the writer's initial last-received count 0");
+    assert!(k1 > k0, "C05: NACK_FRAG count strictly increases from one NACK_FRAG to the next");
+    kani::cover!(k1 > k0, "two NACK_FRAG rounds");
+    core::mem::forget(wp);
+    core::mem::forget(c);
 }
